@@ -26,7 +26,7 @@
 (* invalid rune to a string gives Repl (U+FFFD) -- that is what Go's       *)
 (* string([]rune) does, and nextString relies on it.                       *)
 (*                                                                         *)
-(* Two switches keep the as-coded behaviour at the pinned commit apart     *)
+(* Three switches keep the as-coded behaviour at the pinned commit apart   *)
 (* from the sound one (the exhaustive models hold for TRUE and fail for    *)
 (* FALSE; real executions are judged by Ref... only):                      *)
 (*   TU_FROM_START  the increment form of a bfrange is chosen by comparing *)
@@ -39,12 +39,21 @@
 (*                  / only the root's notdef entries are ever consulted,   *)
 (*                  SetMapping drops an entry when the parent's LookupCID  *)
 (*                  (notdef included) gives the same CID (FALSE, as coded) *)
+(*   CHUNK_STACK    the bfrange sections of a ToUnicode stream are cut so  *)
+(*                  that the reading PostScript interpreter's operand stack*)
+(*                  (STACK objects) can hold a section's operands while a  *)
+(*                  value array is being built (TRUE) / sections are cut   *)
+(*                  by entry count only (FALSE, as coded)                  *)
+(* ("as coded" = font/cmap before the repairs ec5b7ba, b4574b9 and the one *)
+(* proposed in fixes-proposed/C13-tounicode-section-overflows-stack.diff)  *)
 (***************************************************************************)
 EXTENDS Charcode
 
 CONSTANTS RuneMax, HoleLo, HoleHi, Repl,
           TU_FROM_START, NOTDEF_OWN,
-          CHUNK            \* entries per begin...char / begin...range section (100 in the code)
+          CHUNK,           \* entries per begin...char / begin...range section (100 in the code)
+          STACK,           \* operand stack depth of the PostScript interpreter that reads the stream (500)
+          CHUNK_STACK
 
 -----------------------------------------------------------------------------
 (* Codes *)
@@ -354,11 +363,28 @@ ImplReadCID(s) ==
    nranges |-> SelectSeq(Flatten(s.ndranges), LAMBDA x : BoundsOK(x.first, x.last)),
    parent |-> IF "isnone" \in DOMAIN s.usecmap THEN NoFile ELSE ImplReadCID(s.usecmap)]
 
+\* Between "n beginbfrange" and "endbfrange" every entry leaves three operands on the
+\* stack (a value list counts as one once it is closed); while the list of the next entry
+\* is open its mark and elements are there as well.
+OperandsAt(cur, r) == 3 * Len(cur) + 2 + (IF Len(r.vals) > 1 THEN 1 + Len(r.vals) ELSE 1)
+RECURSIVE ChunksByStack(_, _)
+ChunksByStack(q, cur) ==
+  IF q = <<>> THEN (IF cur = <<>> THEN <<>> ELSE <<cur>>)
+  ELSE IF cur # <<>> /\ (Len(cur) >= CHUNK \/ OperandsAt(cur, Head(q)) > STACK) THEN <<cur>> \o ChunksByStack(q, <<>>)
+  ELSE ChunksByStack(Tail(q), Append(cur, Head(q)))
+RangeChunksTU(q) == IF CHUNK_STACK THEN ChunksByStack(q, <<>>) ELSE Chunks(q)
+PeakOperands(chunk) == Max({0} \cup {OperandsAt(SubSeq(chunk, 1, i - 1), chunk[i]) : i \in 1..Len(chunk)})
+\* the interpreter can read the stream (and the streams of its parents)
+RECURSIVE ReadableTU(_)
+ReadableTU(s) == /\ \A k \in 1..Len(s.ranges) : PeakOperands(s.ranges[k]) <= STACK
+                 /\ \A k \in 1..Len(s.chars) : 2 * Len(s.chars[k]) <= STACK
+                 /\ ("isnone" \in DOMAIN s.usecmap \/ ReadableTU(s.usecmap))
+
 RECURSIVE ImplWriteTU(_)
 ImplWriteTU(f) ==
   [csr |-> f.cs,
    chars |-> Chunks([k \in 1..Len(f.singles) |-> [code |-> f.singles[k].code, v |-> ThroughUTF16(f.singles[k].v)]]),
-   ranges |-> Chunks([k \in 1..Len(f.ranges) |->
+   ranges |-> RangeChunksTU([k \in 1..Len(f.ranges) |->
                 [first |-> f.ranges[k].first, last |-> f.ranges[k].last,
                  vals |-> [j \in 1..Len(f.ranges[k].vals) |-> ThroughUTF16(f.ranges[k].vals[j])]]]),
    usecmap |-> IF HasParent(f) THEN ImplWriteTU(f.parent) ELSE NoFile]
